@@ -43,7 +43,7 @@ def writer_model(ctx, rule="R1"):
             ok_all, why = False, "the bytes written are %s, not canonserialize(metadata)" % show(w[3])[:120]
             break
         h = w[2]
-        if not (is_call(h, "builtin:open") and h[2] and h[2][0] == fname):
+        if not (is_call(h, "builtin:open") and h[2] and _names_file(h[2][0], fname, writing=True)):
             ok_all, why = False, "the write does not go to a handle opened on the filename parameter (%s)" % show(h)[:100]
             break
         mode = h[2][1] if len(h[2]) > 1 else dict(h[3]).get("mode")
@@ -76,7 +76,7 @@ def loader_model(ctx, rule="R2"):
         h = v[2][0]
         if is_call(h, "method:read") and h[2]:
             h = h[2][0]
-        if not (is_call(h, "builtin:open") and h[2] and h[2][0] == fname):
+        if not (is_call(h, "builtin:open") and h[2] and _names_file(h[2][0], fname, writing=False)):
             ok_all, why = False, "the handle parsed is not opened on the filename parameter (%s)" % show(h)[:100]
             break
         mode = h[2][1] if len(h[2]) > 1 else dict(h[3]).get("mode", C("r"))
@@ -86,6 +86,33 @@ def loader_model(ctx, rule="R2"):
             break
     ctx.count(rule + ".loader_paths", len(rets))
     ctx.ob(rule, "loader", site.loc(), "load_metadata_from_file " + ("returns json.load(open(fname, 'rb')) with default hooks, unmodified" if ok_all else "deviates: " + why), ok_all)
+
+
+def _names_file(t, fname, writing):
+    """the first argument of open() denotes the file named by the parameter: the parameter itself,
+    os.fspath(parameter), or a descriptor from os.open(parameter, flags) whose flags are those of
+    the mode (writing: O_WRONLY | O_CREAT | O_TRUNC, nothing else that changes what is written)"""
+    if t == fname:
+        return True
+    if is_call(t, ("ext:os.fspath", "builtin:str")) and t[2] == (fname,):
+        return True
+    if is_call(t, "ext:os.open") and len(t[2]) >= 2 and t[2][0] == fname:
+        flags = set()
+
+        def go(x):
+            if isinstance(x, tuple) and x and x[0] == "binop" and x[1] == "|":
+                return go(x[2]) and go(x[3])
+            if isinstance(x, tuple) and len(x) == 2 and x[0] == "global" and x[1].startswith("ext:os.O_"):
+                flags.add(x[1][7:])
+                return True
+            return False
+
+        if not go(t[2][1]):
+            return False
+        if writing:
+            return {"O_WRONLY", "O_CREAT", "O_TRUNC"} <= flags and not (flags & {"O_APPEND", "O_RDWR", "O_EXCL"} - {"O_EXCL"})
+        return flags <= {"O_RDONLY", "O_CLOEXEC", "O_BINARY"} and "O_RDONLY" in flags
+    return False
 
 
 def steps_text(steps):
